@@ -778,3 +778,103 @@ def quote_paths(f):
     if len(cur) >= 2:
         out.append((tuple(cur), line))
     return out
+
+
+# ---------------------------------------------------------------------------------------------------------------
+# auxiliary tree walkers: per explicitly handled variant, children must be visited on every path
+# ---------------------------------------------------------------------------------------------------------------
+def _reaches(F, adt, targets, depth=4):
+    if adt in targets:
+        return True
+    if depth == 0 or adt not in F.adts:
+        return False
+    for v in F.adts[adt]["variants"]:
+        for fl in v["fields"]:
+            if any(_reaches(F, a, targets, depth - 1) for a in fl["adts"] if a != adt):
+                return True
+    return False
+
+
+def walker_check(F, rep, rule, f, enum_adt, bear, child_adts, exempt=None, family=(), direct_only=False):
+    """For each variant the walker's main match handles explicitly and that has child-bearing fields:
+       (a) every such field is read in the walker (function + nested closures + same-file helpers it calls);
+       (b) no path through the arm avoids both a recursive call and a loop over children.
+    """
+    exempt = exempt or {}
+    sw = primary_dispatch(f, enum_adt)
+    if sw is None:
+        rep.anchor(rule, "main match over %s in %s" % (short(enum_adt), f.path), None)
+        return
+    own = body_and_closures(F, f.path)
+    helpers = set(own)
+    for p in list(own):
+        for _, t in F.fns[p].calls():
+            n = callee_name(t)
+            if n and n in F.fns and F.fns[n].file == f.file and n.split("::")[-1] != f.path.split("::")[-1]:
+                # small helpers of the same file (e.g. `scan_function`) belong to the walker
+                if len(F.fns[n].blocks) < 80:
+                    helpers.update(body_and_closures(F, n))
+    reads = F.field_reads(helpers)
+    regs = arm_regions(f, sw)
+    pdom = postdominators(f)
+    join = pdom.get(sw["block"], set()) - {sw["block"]}
+    wname = f.path.split("::")[-1]
+    family = {f.path} | {p for p in helpers} | {x.path for suf in family for x in F.find_fns(suffix=suf)}
+    reads = F.field_reads(set(helpers) | {p for q in family for p in body_and_closures(F, q)})
+    for var in F.adts[enum_adt]["variants"]:
+        v = var["name"]
+        if v not in sw["explicit"]:
+            continue
+        kidf = [fl for fl in var["fields"] if any(a in child_adts for a in fl["adts"]) or
+                (not direct_only and field_is_bearing(fl, bear) and
+                 any(a in bear and a not in child_adts and _reaches(F, a, child_adts) for a in fl["adts"]))]
+        kids = [fl["name"] for fl in kidf]
+        if not kids:
+            continue
+        all_optional = all(fl["ty"].startswith("core::option::Option<") for fl in kidf)
+        for k in kids:
+            inst = "%s:%s::%s.%s" % (wname, short(enum_adt), v, k)
+            ok = (enum_adt, v, k) in reads
+            if not ok and inst in exempt:
+                rep.oblige(rule, inst, True)
+                rep.exempt(rule, inst, exempt[inst])
+                continue
+            rep.oblige(rule, inst, ok, sample={"rule": rule, "walker": f.path, "variant": v, "field": k,
+                                               "visited": ok})
+            if not ok:
+                rep.add(Finding(rule, "%s|%s|%s::%s.%s" % (rule, wname, short(enum_adt), v, k),
+                                "walker %s handles %s::%s explicitly but never looks at its `%s`: anything nested "
+                                "there is invisible to the analysis this walker implements" % (wname, short(enum_adt),
+                                                                                               v, k),
+                                file=f.file, line=sw["ln"], fn=f.path))
+        # path rule
+        tgt = sw["explicit"][v]
+        stops = set()
+        for b in regs.get(v, set()):
+            t = f.term(b)
+            if t["t"] != "call":
+                continue
+            n = callee_name(t) or ""
+            g = callee_generic(t) or ""
+            if n in family or g.endswith("IntoIterator::into_iter") or g.endswith("::iter") or \
+                    g.endswith("::iter_mut") or g.endswith("Iterator::any") or g.endswith("Iterator::all") or \
+                    g.endswith("::map") or g.endswith("::and_then") or g.endswith("::is_some_and") or \
+                    g.endswith("::for_each") or g.endswith("::map_or"):
+                stops.add(b)
+        reach = f.reachable(tgt, avoid=stops)
+        escapes = any(s in join for b in reach for s in f.succs()[b]) or \
+            any(f.term(b)["t"] == "return" for b in reach)
+        inst = "%s:%s::%s:every-path-visits-children" % (wname, short(enum_adt), v)
+        if all_optional:
+            escapes = False  # all children optional: a path without a visit is the `None` case
+        if escapes and inst in exempt:
+            rep.oblige(rule, inst, True)
+            rep.exempt(rule, inst, exempt[inst])
+            continue
+        rep.oblige(rule, inst, not escapes)
+        if escapes:
+            rep.add(Finding(rule, "%s|%s|%s::%s|path-skips-children" % (rule, wname, short(enum_adt), v),
+                            "in walker %s a path through the arm for %s::%s reaches the end of the arm without "
+                            "visiting any child (no recursive call, no loop over children): under some condition "
+                            "the sub-terms of this node are skipped" % (wname, short(enum_adt), v),
+                            file=f.file, line=sw["ln"], fn=f.path))
